@@ -32,6 +32,8 @@ Types == Bases
          \cup {Arr(TScalar(x), 2) : x \in {"int", "float", "S1"}}
          \cup {TMap(TScalar(x)) : x \in {"int", "float", "string", "S1", "S2", "txt"}}
          \cup {TMap(Arr(TScalar("int"), 1)), Arr(TMap(TScalar("int")), 1)}
+         \* arrays of two dimensions whose elements are typed maps (of scalars, of arrays)
+         \cup {Arr(TMap(TScalar("int")), 2), Arr(TMap(Arr(TScalar("int"), 1)), 2)}
 
 IsBuiltin(t, name) == t.a = 0 /\ t.m = 0 /\ t.b = name
 IsScalarT(t) == t.a = 0 /\ t.m = 0
